@@ -7,7 +7,7 @@
 
    A field is NCols columns (the (x, y) points of the code), column c having its own surface
    pressure SP(c).  Sigma level sets live on the lattice k/Den, pressure levels and surface
-   pressures are small integers, so every query (sigma * sp, p / sp, a / sp + b) and every
+   pressures are small integers (DenA, DenB powers of two), so every query (sigma * sp, p / sp, a / sp + b) and every
    result is an exact rational.  A behaviour is one of four scenarios chosen at Init:
 
      "p2s":     PressureToSigma ; SigmaToPressure      (round trip pressure -> sigma -> pressure)
@@ -23,10 +23,12 @@
    NaN there, which is neither required nor forbidden).  UNSPEC is never compared. *)
 EXTENDS Integers, Sequences, FiniteSets, TLC, Json, InterpOps
 
-CONSTANTS Den,            \* sigma boundaries k/Den
+CONSTANTS DenA, DenB,     \* sigma boundaries k/DenA ("p2s" scenario), k/DenB ("s2p")
           MinLayers, MaxLayers,
-          PLattice,       \* pressure levels are subsets of this set of positive integers
-          MinPLevels, MaxPLevels,
+          PLatticeA,      \* pressure levels are subsets of this set of positive integers with
+          MinPA, MaxPA,   \*   MinPA..MaxPA elements ("p2s" and "surface" scenarios)
+          PLatticeB,      \* the same for the "s2p" scenario
+          MinPB, MaxPB,
           HDen,           \* hybrid b-coefficients on k/HDen
           HAMax,          \* hybrid a-coefficients in 0..HAMax
           MaxHLayers,     \* hybrid layers 2..MaxHLayers
@@ -57,8 +59,9 @@ SigmaSets(d) == UNION {{<<0>> \o s \o <<d>> : s \in IncSeqs(K - 1, 1, d - 1)}
 RECURSIVE SortedSeq(_)
 SortedSeq(S) == IF S = {} THEN <<>>
                 ELSE LET m == CHOOSE x \in S : \A y \in S : x <= y IN <<m>> \o SortedSeq(S \ {m})
-PressureSets == {SortedSeq(S) : S \in {T \in SUBSET PLattice :
-                                         Cardinality(T) \in MinPLevels..MaxPLevels}}
+PressureSets(lat, lo, hi) == {SortedSeq(S) : S \in {T \in SUBSET lat : Cardinality(T) \in lo..hi}}
+PressureSetsA == PressureSets(PLatticeA, MinPA, MaxPA)
+PressureSetsB == PressureSets(PLatticeB, MinPB, MaxPB)
 
 K == Len(sb) - 1
 Center(k) == Norm(sb[k] + sb[k + 1], 2 * sden)
@@ -114,16 +117,16 @@ SourceOn(coordOf(_)) ==
 
 -----------------------------------------------------------------------------
 None == <<>>
-InitP2S == /\ scen = "p2s" /\ sden = Den /\ sb \in SigmaSets(Den) /\ pl \in PressureSets
+InitP2S == /\ scen = "p2s" /\ sden = DenA /\ sb \in SigmaSets(DenA) /\ pl \in PressureSetsA
            /\ hy = None /\ st = None /\ g = 0
            /\ src = LET co(c) == PL IN SourceOn(co)
-InitS2P == /\ scen = "s2p" /\ sden = Den /\ sb \in SigmaSets(Den) /\ pl \in PressureSets
+InitS2P == /\ scen = "s2p" /\ sden = DenB /\ sb \in SigmaSets(DenB) /\ pl \in PressureSetsB
            /\ hy = None /\ st = None /\ g = 0
            /\ src = LET co(c) == Centers IN SourceOn(co)
 InitHybrid == /\ scen = "hybrid" /\ sden = HSigmaDen /\ sb \in SigmaSets(HSigmaDen) /\ pl = None
               /\ hy \in {h \in HybridSets : HybridOk(h)} /\ st = None /\ g = 0
               /\ src = SourceOn(HCenters)
-InitSurface == /\ scen = "surface" /\ sden = 0 /\ sb = None /\ pl \in PressureSets /\ hy = None
+InitSurface == /\ scen = "surface" /\ sden = 0 /\ sb = None /\ pl \in PressureSetsA /\ hy = None
                /\ st \in [1..Len(pl) - 1 -> 1..MaxStep] /\ g \in 1..2
                /\ src = None
 Init == /\ (InitP2S \/ InitS2P \/ InitHybrid \/ InitSurface)
